@@ -277,7 +277,34 @@ func driveC09(args []string) error {
 	}
 
 	// ---- suggested palettes ------------------------------------------------------------------
+	var sharedEnc encode.Encoder
+	npal := 0
 	palette := func(id string, p [64]color.RGBA) error {
+		// every third palette is written twice by one long-lived Encoder that is Reset again and again
+		// (the second time with another viewBox); the others by fresh Encoders
+		npal++
+		if npal%3 == 0 {
+			sharedEnc.Reset(ivg.ViewBox{MinX: -24, MinY: -24, MaxX: 24, MaxY: 24}, p)
+			if b, err := sharedEnc.Bytes(); err == nil {
+				var rec Recorder
+				ev := colEv{Ev: "palette", Path: id + "/reused-1", Pal: palJ(p), B: bytesJ(b)}
+				if err := decode.Decode(&rec, b); err == nil && len(rec.Calls) == 1 {
+					ev.OK = 1
+					ev.Got = rec.Calls[0].Pal
+				}
+				emit(ev)
+			}
+			sharedEnc.Reset(ivg.ViewBox{MinX: 0, MinY: 0, MaxX: 48, MaxY: 48}, p)
+			if b, err := sharedEnc.Bytes(); err == nil {
+				var rec Recorder
+				ev := colEv{Ev: "palette", Path: id + "/reused-2", Pal: palJ(p), B: bytesJ(b)}
+				if err := decode.Decode(&rec, b); err == nil && len(rec.Calls) == 1 {
+					ev.OK = 1
+					ev.Got = rec.Calls[0].Pal
+				}
+				emit(ev)
+			}
+		}
 		var e encode.Encoder
 		e.Reset(ivg.DefaultViewBox, p)
 		b, err := e.Bytes()
